@@ -140,6 +140,8 @@ def is_const(e):
         return True
     if k == "paren":
         return is_const(e[1])
+    if k == "cast":
+        return is_const(e[2])   # a cast to the literal's own type is elided by the compiler
     if k == "un":
         return is_const(e[2])
     if k == "bin":
@@ -416,10 +418,12 @@ def stmts(draw, env, depth, nest, lo, hi, protect=frozenset()):
     n = draw(st.integers(lo, hi))
     out = []
     for _ in range(n):
+        snapshot = dict(env.vars)
         s = draw(stmt(env, depth, nest))
         # loop counters must not be assigned inside the body (keeps trip counts bounded)
         if protect and _assigns(s, protect):
             s = ("empty",)
+            env.vars = snapshot
         out.append(s)
     return out
 
@@ -442,3 +446,170 @@ def program(draw, features, depth=3, nest=2, lo=1, hi=6):
     body = [s for s in body]
     # drop helper marks
     return body, env
+
+
+# --------------------------------------------------------------------------------------------------------
+# Normalisation passes: rewrite a generated program so that it stays outside the classes of listed findings
+# (exclusion by construction). Each rewrite is counted by the caller through `stats`.
+
+def _su_widen(src, dst):
+    """conversion of a signed value to a wider unsigned type (after integer promotion of the source)"""
+    return src[0] and not dst[0] and dst[1] > src[1]
+
+
+def normalize(stmts, features, subs=None, stats=None):
+    vt = {"EA": (False, 32), "i": (False, 32), "j": (False, 32), "k": (False, 32)}
+    subs = subs or {}
+    stats = stats if stats is not None else {}
+
+    def note(k):
+        stats[k] = stats.get(k, 0) + 1
+
+    def ty(e):
+        return type_of(e, vt, subs)
+
+    def conv(e, dst):
+        """e is converted to dst implicitly at this site"""
+        if "widen_unsigned_from_signed" not in features:
+            t = ty(e)
+            if _su_widen(t, dst):
+                note("excluded:signed->wider-unsigned conversion (cast via signed inserted)")
+                return ("cast", (True, dst[1]), e)
+        return e
+
+    def truthy(e):
+        """operand of && || ! : keep comparisons/logicals, turn plain values into (v != 0) unless mixing is allowed"""
+        if "logical_mixed" in features:
+            return e
+        if e[0] == "bin" and e[1] in ("<", ">", "<=", ">=", "==", "!=", "&&", "||"):
+            return e
+        if e[0] == "un" and e[1] == "!":
+            return e
+        note("excluded:plain value as && / || / ! operand (rewritten to v != 0)")
+        z = ("num", 0, (True, 32), "0")
+        return ("bin", "!=", ex(("paren", e))[1] if False else e, conv_to_common(z, e))
+
+    def conv_to_common(z, other):
+        return z
+
+    def ex(e):
+        k = e[0]
+        if k in ("num", "opnd", "var"):
+            return e
+        if k == "paren":
+            return ("paren", ex(e[1]))
+        if k == "cast":
+            inner = ex(e[2])
+            if "widen_unsigned_from_signed" not in features and _su_widen(ty(inner), e[1]):
+                note("excluded:signed->wider-unsigned conversion (cast via signed inserted)")
+                inner = ("cast", (True, e[1][1]), inner)
+            return ("cast", e[1], inner)
+        if k == "un":
+            a = ex(e[2])
+            if e[1] == "!":
+                return ("un", "!", truthy(a))
+            return ("un", e[1], a)
+        if k == "bin":
+            op = e[1]
+            a, b = ex(e[2]), ex(e[3])
+            if op in ("&&", "||"):
+                a, b = truthy(a), truthy(b)
+                a, b = ex_cmp_fix(a), ex_cmp_fix(b)
+                return ("bin", op, a, b)
+            if op in ("<<", ">>"):
+                ta = ty(a)
+                if op == "<<" and ta[1] < 32 and "narrow_shift_left" not in features:
+                    note("excluded:narrow left operand of << (promotion cast inserted)")
+                    a = ("cast", promote(ta), a)
+                return ("bin", op, a, b)
+            ta, tb = ty(a), ty(b)
+            if op in ("<", ">", "<=", ">=", "==", "!=") and "cmp_narrow" not in features:
+                if ta[1] < 32:
+                    note("excluded:narrow comparison operand (promotion cast inserted)")
+                    a = ("cast", promote(ta), a)
+                    ta = promote(ta)
+                if tb[1] < 32:
+                    note("excluded:narrow comparison operand (promotion cast inserted)")
+                    b = ("cast", promote(tb), b)
+                    tb = promote(tb)
+            t = common(ta, tb)
+            a2, b2 = a, b
+            if "widen_unsigned_from_signed" not in features:
+                if _su_widen(promote(ta), t):
+                    note("excluded:signed->wider-unsigned conversion (cast via signed inserted)")
+                    a2 = ("cast", (True, t[1]), a)
+                if _su_widen(promote(tb), t):
+                    note("excluded:signed->wider-unsigned conversion (cast via signed inserted)")
+                    b2 = ("cast", (True, t[1]), b)
+            return ("bin", op, a2, b2)
+        if k == "cond":
+            c, a, b = ex(e[1]), ex(e[2]), ex(e[3])
+            t = common(ty(a), ty(b))
+            if "widen_unsigned_from_signed" not in features:
+                if _su_widen(ty(a), t):
+                    a = ("cast", (True, t[1]), a)
+                    note("excluded:signed->wider-unsigned conversion (cast via signed inserted)")
+                if _su_widen(ty(b), t):
+                    b = ("cast", (True, t[1]), b)
+                    note("excluded:signed->wider-unsigned conversion (cast via signed inserted)")
+            return ("cond", c, a, b)
+        if k == "assign":
+            lhs, rhs = e[2], ex(e[3])
+            lt = ty(lhs)
+            if e[1] in ("=",):
+                rhs = conv(rhs, lt)
+            elif e[1] not in ("<<=", ">>="):
+                t = common(lt, ty(rhs))
+                if "widen_unsigned_from_signed" not in features and _su_widen(promote(ty(rhs)), t):
+                    note("excluded:signed->wider-unsigned conversion (cast via signed inserted)")
+                    rhs = ("cast", (True, t[1]), rhs)
+            return ("assign", e[1], lhs, rhs)
+        if k == "post":
+            return e
+        if k == "load":
+            return ("load", e[1], e[2], ex(e[3]))
+        if k == "call":
+            args = [ex(a) for a in e[2]]
+            sd = subs.get(e[1])
+            if sd is not None:
+                args = [conv(a, p[1]) if p[0] == "val" else a for a, p in zip(args, sd.params)]
+            return ("call", e[1], args)
+        if k == "stmtexpr":
+            inner = [st_(s) for s in e[1]]
+            return ("stmtexpr", inner, ex(e[2]))
+        if k == "sizeof":
+            return e
+        return e
+
+    def ex_cmp_fix(e):
+        return e
+
+    def st_(s):
+        k = s[0]
+        if k == "decl":
+            init = s[3]
+            if init is not None:
+                init = conv(ex(init), s[1])
+            vt[s[2]] = s[1]
+            return ("decl", s[1], s[2], init, s[4])
+        if k == "expr":
+            return ("expr", ex(s[1]))
+        if k == "block":
+            return ("block", [st_(x) for x in s[1]])
+        if k == "if":
+            return ("if", cond_(s[1]), st_(s[2]), None if s[3] is None else st_(s[3]))
+        if k == "for":
+            init = None if s[1] is None else st_(s[1])
+            return ("for", init, None if s[2] is None else cond_(s[2]), None if s[3] is None else ex(s[3]), st_(s[4]))
+        if k == "store":
+            return ("store", s[1], s[2], ex(s[3]), conv(ex(s[4]), (s[1], s[2])))
+        if k == "jump":
+            return ("jump", conv(ex(s[1]), (False, 32)))
+        if k == "return":
+            return s if s[1] is None else ("return", ex(s[1]))
+        return s
+
+    def cond_(e):
+        return ex(e)
+
+    return [st_(s) for s in stmts]
